@@ -17,6 +17,9 @@ import (
 
 const numCondPositions = 13
 
+// c02PosList: the condition positions of C02 (position 13 is C11's; 100 and 101 are the hosts other than a script statement)
+var c02PosList = []int{0, 1, 2, 3, 4, 5, 6, 7, 8, 9, 10, 11, 12, 14, 15, 16, 17, 100, 101}
+
 // condProgram places cond in condition position pos.
 func condProgram(cond *model.Cond, pos int) *model.Script {
 	cmd := func(n string) model.Stmt { return model.Stmt{Kind: model.SCmd, Name: n} }
@@ -46,6 +49,9 @@ func condProgram(cond *model.Cond, pos int) *model.Script {
 		st = model.Stmt{Kind: model.SWhile, Cond: cond, Body: []model.Stmt{{Kind: model.SIf, Arms: []model.Arm{{Cond: firstLeafCopy(cond), Body: []model.Stmt{cmd("t")}}}}, cmd("u")}}
 	case 13: // (C11 only) last elif with an empty body and no else: nothing depends on the condition, but an AutoVar command in it still runs
 		st = model.Stmt{Kind: model.SIf, Arms: []model.Arm{{Cond: guard(1), Body: []model.Stmt{cmd("g1")}}, {Cond: cond, Body: nil}}}
+	case 14, 15, 16, 17: // the body is a single jump-like statement (where a compiler is tempted to fold test and jump into one command): call(EXT), goto(EXT), return, end
+		body := map[int]model.Stmt{14: {Kind: model.SCmd, Name: "call(EXT)", Out: "call EXT"}, 15: {Kind: model.SGoto, Name: "EXT"}, 16: {Kind: model.SReturn}, 17: {Kind: model.SEnd}}[pos]
+		st = model.Stmt{Kind: model.SIf, Arms: []model.Arm{{Cond: cond, Body: []model.Stmt{body}}}}
 	case 7: // middle elif with an empty body, no else: the condition still guards the later elif
 		st = model.Stmt{Kind: model.SIf, Arms: []model.Arm{{Cond: guard(1), Body: []model.Stmt{cmd("g1")}}, {Cond: cond, Body: nil}, {Cond: guard(2), Body: []model.Stmt{cmd("g2")}}}}
 	case 8: // if with an empty body, then elif
@@ -199,17 +205,17 @@ func runC02(tier string) int {
 				}
 				return model.LeafForm(j.forms[i], i+1)
 			})
-			for pos := 0; pos < numCondPositions+2; pos++ {
-				sc := condProgram(cond, pos%numCondPositions)
+			for _, pos := range c02PosList {
+				sc := condProgram(cond, pos%100)
 				scripts := []*model.Script{sc}
 				src := model.Print(scripts)
-				if pos >= numCondPositions {
+				if pos >= 100 {
 					// hosts other than a script statement: the second inline script of a mapscripts statement / the second
 					// inline entry of a table, after an inline script that branches itself (if / else form of the condition)
 					sc = condProgram(cond, 1)
 					body := model.PrintBody(sc.Body, 3)
 					first := "\t\t\tif (flag(G0)) {\n\t\t\t\tg0\n\t\t\t}\n\t\t\twhile (var(GV) < 2) {\n\t\t\t\tg1\n\t\t\t}\n"
-					if pos == numCondPositions {
+					if pos == 100 {
 						sc.Name = "M_T1"
 						src = "mapscripts M {\n\tT0 {\n" + first + "\t}\n\tT1 {\n" + body + "\t}\n}\n"
 					} else {
@@ -258,9 +264,9 @@ func runC02(tier string) int {
 	// AutoVar leaves ("anywhere a var() operator can be used"): every tree with <= 2 leaves, one of them an AutoVar command
 	// leaf (fixed var name / argument position), in the if/else and while positions, in files that define constants named
 	// like the configured result vars (the leaf tests the var the command writes, whatever constants exist)
-	autoDone := r.Parallel(uint64(2*3*numAutoForms*2), func(w int, idx uint64) {
-		pos := []int{1, 5}[idx%2]
-		x := idx / 2
+	autoDone := r.Parallel(uint64(6*3*numAutoForms*2), func(w int, idx uint64) {
+		pos := []int{1, 5, 14, 15, 16, 17}[idx%6]
+		x := idx / 6
 		form := int(x % numAutoForms)
 		x /= numAutoForms
 		kind := []int{0, 2, 3}[x%3]
@@ -382,7 +388,7 @@ func runC02(tier string) int {
 	r.Assume("the generator's own expression tree is the reference (no parsing on the oracle side); '!' > '&&' > '||', left to right, short-circuit",
 		"lockstep: each operand read (which flag/var/trainer, strict or not) is an observable event; the environment answers with the operand's value and each side applies its own relation")
 	return r.Finish(r.Get("evaluations"), r.Get("nontrivial"),
-		"every And/Or tree with k leaves x decorations (redundant parentheses / negations on any node, bounded count) x leaf-form assignments (all 34 forms - var against TRUE / FALSE included - exhaustively for k<=2, rotations beyond, shared-operand variants for k<=3 incl. the same var test written once plainly and once with value(), and one var compared with 1, 10 and 100) x 13 condition positions in a script, plus the if/else position in the second inline script of a mapscripts statement and in the second inline entry of a table (if, if/else, elif positions, while, do...while, branches with an empty body, and positions in which the first operand test of the expression is tested again in a neighbouring condition) x optimize on/off; plus AutoVar command leaves (3 command kinds x 9 forms, alone and inside an &&/|| expression) in files whose constants are named like the configured result vars; plus chains of K leaves for every K up to the bound in the coverage in 5 operator patterns; each case explored in lockstep over all operand values; non-trivial = at least 2 leaves")
+		"every And/Or tree with k leaves x decorations (redundant parentheses / negations on any node, bounded count) x leaf-form assignments (all 34 forms - var against TRUE / FALSE included - exhaustively for k<=2, rotations beyond, shared-operand variants for k<=3 incl. the same var test written once plainly and once with value(), and one var compared with 1, 10 and 100) x 17 condition positions in a script (four of them an if whose body is a single call / goto / return / end), plus the if/else position in the second inline script of a mapscripts statement and in the second inline entry of a table (if, if/else, elif positions, while, do...while, branches with an empty body, and positions in which the first operand test of the expression is tested again in a neighbouring condition) x optimize on/off; plus AutoVar command leaves (3 command kinds x 9 forms, alone and inside an &&/|| expression) in files whose constants are named like the configured result vars; plus chains of K leaves for every K up to the bound in the coverage in 5 operator patterns; each case explored in lockstep over all operand values; non-trivial = at least 2 leaves")
 }
 
 // firstLeafCopy returns a fresh leaf condition equal to the first operand test evaluated by c (polarity as written in the leaf).
